@@ -39,6 +39,7 @@ CONSTANTS MinKeys, MaxKeys,  \* key lists of MinKeys..MaxKeys keys
           EmptyFix,          \* TRUE: an empty key list returns nil (the property); FALSE: the pinned code (F1)
           AllowCancel,       \* the caller's context may end
           EarlyExits,        \* include ring errors (Get fails at key j, InstancesCount() = 0)
+          MaxConc,           \* at most this many calls are inside record at the same time (bounds the interleavings)
           Record             \* keep the history of environment steps + observations (case generation)
 
 Inst    == 1..NI
@@ -298,6 +299,7 @@ Internal == DStart \/ DGet \/ DLast \/ MainRecvErr \/ MainRecvDone \/ MainCtxDon
 Entered(t, c, o) == [t EXCEPT !.out[c] = o, !.pc[c] = "item", !.idx[c] = 1]
 Release(c, o) ==
     /\ s.pc[c] = "cb" /\ EnvMayMove
+    /\ Cardinality({d \in Inst : s.pc[d] \in StepPcs}) < MaxConc
     /\ s' = (IF Grain = "call" THEN Run(Entered(s, c, o), c, {}) ELSE Entered(s, c, o))
     /\ Log("rel", c, o)
     /\ UNCHANGED <<cfg, main, gi, ctx, items, cleanG, cleaned, nret, ret, spawns, hist>>
@@ -436,7 +438,9 @@ Termination == <>[](main = "returned" /\ cleaned = 1 /\ AllCallsDone)
 -----------------------------------------------------------------------------
 (* Case generation: one JSON line per complete behaviour of the driver-visible (gated) system. *)
 Behaviour == [cfg |-> [nk |-> cfg.nk, reps |-> cfg.reps, maxErr |-> cfg.maxErr, getErrAt |-> cfg.getErrAt, noInst |-> cfg.noInst],
-              grain |-> Grain, steps |-> hist, calls |-> items, spawns |-> spawns]
+              grain |-> Grain, steps |-> hist,
+              calls |-> (IF Dispatched THEN items ELSE [i \in Inst |-> <<>>]),   \* callback invocations
+              spawns |-> spawns]
 Emit == (Record /\ ~pend.on /\ AllCallsDone /\ main \in {"waiting", "returned"} /\ Quiescent)
             => PrintT(ToJson(Behaviour))
 =============================================================================
